@@ -1,7 +1,7 @@
 """C02 Emission / direct-image spectra equal the documented layered integral."""
 import ast
 
-from sa.helpers import (the_return, must_be_unconditional, event_of, conditions, mkflow, spec, code, one, calls, bind_call, param_env,
+from sa.helpers import (guard_is, same_cond, the_return, must_be_unconditional, event_of, conditions, mkflow, spec, code, one, calls, bind_call, param_env,
                         loop_matches, fmt, atom_of, unparse, unalloc, call_kw,
                         inline_calls)
 from sa.index import AnalysisError, FuncInfo
@@ -582,7 +582,9 @@ def ktable_terms(ix, R, kt, pfx='7'):
         if not ok:
             why.append('per-angle column is not added at its own angle index')
         g = [x for x in e.guards]
-        if len(g) != 1 or not g[0].positive or 'is not None' not in g[0].text():
+        ga0 = atom_of(fl, g[0].rf) if len(g) == 1 and g[0].rf is not None else None
+        if len(g) != 1 or g[0].positive or ga0 is None or ga0.head != 'cmp' or ga0.extra[0] != 'Is' or \
+                fmt(fl, ga0.args[-1]) != 'None':
             why.append('guards %s' % [x.text() for x in g])
         for x in sts + rs[:1]:
             if [y.node for y in x.guards] != [y.node for y in g]:
